@@ -132,13 +132,13 @@ Definition fix_falls_back (l : list apair) (num den unit : Z) : bool :=
 
 (* conditioning of the as-found choice: adj(K - lam I) = g v v^T at a simple root, so
    colnorm 0 / (sum of the four colnorms) = v0^2 = cos^2(theta/2) for the optimal rotation angle theta.
-   Below 1/400 (theta within 0.1 rad of a half turn) the float32 evaluation of column 0 is dominated by
+   Below 1/100 (theta within 0.2 rad of a half turn) the float32 evaluation of column 0 is degraded by
    rounding.  This predicate is NOT used by any theorem; the correspondence uses it only to attribute a
    failing superposition to the known defect "only the first column is formed". *)
 Definition sumcol (l : list apair) (num den : Z) : Z :=
   colnorm 0 l num den + colnorm 1 l num den + colnorm 2 l num den + colnorm 3 l num den.
 Definition cur_illcond (l : list apair) (num den : Z) : bool :=
-  colnorm 0 l num den * 400 <? sumcol l num den.
+  colnorm 0 l num den * 100 <? sumcol l num den.
 
 (* correspondence entry point: 8*[cur falls back] + 4*[fix falls back] + 2*[guard: column-0 norm within
    10^4 of the absolute threshold] + [cur ill-conditioned] *)
